@@ -3,7 +3,8 @@
 (* fresh prefix of the real store (embedded etcd) and logs `w.inv` / `w.ret`; the write takes    *)
 (* effect at a silent WLin step in between.  Consumers of the real syncer (Sync, SyncRaw,        *)
 (* SyncPrefix, SyncRawPrefix; fast and slow readers) log `start` before calling Sync* and `snap` *)
-(* for every value received.  `stop` / `up` mark a restart of the etcd server.  After the last    *)
+(* for every value received.  `stop` / `up` mark a restart of the etcd server, `part` / `heal` an   *)
+(* interval during which every etcd request of the syncer's member fails.  After the last         *)
 (* write the harness waits (generous deadline) and logs `conv` with each consumer's view: the    *)
 (* contract's Converged must hold.  TLC rebuilds `hist` and checks every snapshot against         *)
 (* SyncerContract (RealStates, Monotone, Distinct).                                              *)
@@ -50,8 +51,9 @@ TSnap == /\ IsEvent("snap")
          /\ Deliver(Ev.c, Ev.val)
          /\ UNCHANGED <<pend, pset>>
 
-(* server stop / start: no effect on the contract's state; the harness does not write across them *)
-TMark == /\ (IsEvent("stop") \/ IsEvent("up")) /\ pend = "no"
+(* server stop / start, and `part` / `heal`: the syncer's member is cut off from the server (its etcd requests    *)
+(* fail) and reaches it again: no effect on the contract's state; the harness logs them between two writes      *)
+TMark == /\ (IsEvent("stop") \/ IsEvent("up") \/ IsEvent("part") \/ IsEvent("heal")) /\ pend = "no"
          /\ UNCHANGED <<kvars, pend, pset>>
 
 TConv == /\ IsEvent("conv") /\ pend = "no"
